@@ -49,6 +49,11 @@ let () = main_loop (fun toks ->
               (match r with None -> "L=none" | Some (t, data) -> "L=" ^ string_of_z t ^ "." ^ hex_of_bytes data)
           | ["G"; now] -> d := gc (z_of_string now) !d; "G"
           | ["X"; i] -> d := remove (nth_name i) !d; "X"
+          | ["V"; h] -> (match valid_sid (bytes_of_hex h) with None -> "V=none" | Some id -> "V=" ^ hex_of_bytes id)
+          | ["Q"; now; h] ->
+              let (r, d') = sid_load (z_of_string now) (bytes_of_hex h) !d in
+              d := d';
+              (match r with None -> "Q=none" | Some (t, data) -> "Q=" ^ string_of_z t ^ "." ^ hex_of_bytes data)
           | _ -> "BAD-OP") in
         if r = "BAD-OP" then r else r ^ summary names !d) ops in
       String.concat " " outs
